@@ -248,6 +248,15 @@ class C03(Harness):
         if nb:
             f.update(ser(inp["u"], ustart), update_params=inp.get("update_params", True))
             out["cutoff_upd"] = S(f.cutoff)
+        if k.startswith("naive") and not inp["fh_in_fit"]:
+            # an earlier request the forecaster refuses part-way through its moving-cutoff loop (in-sample forecasts with
+            # exogenous data are not supported); the caller carries on with a supported request
+            Xf = pd.DataFrame({"x": [0.0] * (n + nb + 2)}, index=pd.RangeIndex(origin, origin + n + nb + 2))
+            try:
+                f.predict(np.array([0, 1]), X=Xf)
+                out["refused"] = False
+            except NotImplementedError:
+                out["refused"] = True
         p = f.predict() if inp["fh_in_fit"] else f.predict(fh)
         out["index"] = L(p.index)
         out["values"] = L(p.values)
